@@ -69,6 +69,9 @@ def run(ctx: Ctx) -> None:
 
     c04.run(Alias(ctx, "C03.R12", "closure is absorbed, not raised: no closure-class exception (completed/closed buffer, forgotten stream, h2 stream errors, transport failures) escapes the protocols' stream_send into the application's send (C04.R1 on the stream_send / protocol_send roots)", only={"C04.R1"}, where=["stream_send", "protocol_send", "StreamBuffer"]))
 
+    from . import c06
+
+    c06.run(Alias(ctx, "C03.R14", "HTTP/1 recycling tears the finished stream down (StreamClosed, slot cleared) before the parked reader is released or the cycle restarted - otherwise the next pipelined request's stream is installed first and then wiped: its application never gets http.disconnect (C06.R4)", only={"C06.R4"}))
     from . import c16
 
     c16.run(Alias(ctx, "C03.R13", "both workers realise the same write path, read loop and close sequence (C16 skeletons for TCPServer.protocol_send/_read_data/_close/_initiate_server_close)", only={"C16.R2"}, where=["TCPServer.protocol_send", "TCPServer._read_data", "TCPServer._close", "TCPServer._initiate_server_close"]))
